@@ -31,7 +31,7 @@ var traceFuncs = map[string]bool{
 }
 
 type stats struct {
-	Files, GoStmts, ChanYields, BodyYields, SyncImports, Exits, FSCalls, Traces int
+	Files, GoStmts, ChanYields, BodyYields, DeepYields, SyncImports, Exits, FSCalls, Traces int
 }
 
 var st stats
@@ -78,14 +78,15 @@ func main() {
 		}
 	}
 	writeExports(root)
-	fmt.Printf("instr: files=%d go=%d chan_yields=%d body_yields=%d sync_imports=%d exits=%d fs=%d traces=%d\n",
-		st.Files, st.GoStmts, st.ChanYields, st.BodyYields, st.SyncImports, st.Exits, st.FSCalls, st.Traces)
+	fmt.Printf("instr: files=%d go=%d chan_yields=%d body_yields=%d deep_yields=%d sync_imports=%d exits=%d fs=%d traces=%d\n",
+		st.Files, st.GoStmts, st.ChanYields, st.BodyYields, st.DeepYields, st.SyncImports, st.Exits, st.FSCalls, st.Traces)
 }
 
 type fileCtx struct {
 	fset    *token.FileSet
 	rel     string
 	usedRT  bool
+	deep    bool // insert YieldDeep before every statement (model kernels)
 	tmpN    int
 	goLits  map[*ast.FuncLit]bool
 	osAlias string
@@ -125,6 +126,7 @@ func instrumentFile(root, rel string, isOwSim bool) error {
 	f.Comments = keep
 	f.Doc = nil
 	c := &fileCtx{fset: fset, rel: rel, goLits: map[*ast.FuncLit]bool{}}
+	c.deep = strings.HasPrefix(rel, "models/")
 
 	// imports
 	for _, imp := range f.Imports {
@@ -370,6 +372,10 @@ func (c *fileCtx) rewriteList(list []ast.Stmt, inGo bool) []ast.Stmt {
 		case inGo:
 			out = append(out, c.yield(s.Pos(), ""))
 			st.BodyYields++
+		case c.deep:
+			// kernels: statement-level scheduling points that are active only in "deep" runs
+			out = append(out, &ast.ExprStmt{X: c.rtCall("YieldDeep", strLit(c.site(s.Pos())))})
+			st.DeepYields++
 		}
 		out = append(out, s)
 		if chanOp {
